@@ -18,6 +18,7 @@ from qce_circuit.structure.intrf_circuit_operation import (
     MultiRelationType,
     ChannelIdentifier,
     ICircuitOperation,
+    query_scoped_cache,
 )
 from qce_circuit.structure.graph_traversal.intrf_graph_structure import (
     IEndpoint,
@@ -228,6 +229,7 @@ class CircuitCompositeOperation(ICircuitCompositeOperation):
         """:return: Duration [ns]. Time between earliest start and latest end of all contained operations."""
         return self._lead_and_span()[1]
 
+    @query_scoped_cache
     def _lead_and_span(self) -> Tuple[float, float]:
         """
         :return: Tuple of (lead, span).
